@@ -1,10 +1,11 @@
 """Registries (C20, RWA part): thin contracts forwarding 1:1 to the library functions of
 claim_issuer (signing keys), claim_topics_and_issuers, token_binder, doc_manager,
-identity_registry_storage and the compliance module lists.  One model, six flavours."""
+identity_registry_storage, the compliance module lists and identity_claims (claims by id, ids by topic;
+the claim issuers asked by add_claim are scripted contracts).  One model, seven flavours."""
 import copy
 
 NAME = "Registries"
-FLS = {"keys", "cti", "binder", "docs", "irs", "modules"}
+FLS = {"keys", "cti", "binder", "docs", "irs", "modules", "claims"}
 
 # universes of the exhaustive runs (the harness' regime "mc" probes exactly these)
 _u = dict(
@@ -14,6 +15,7 @@ _u = dict(
     DNS={"n1", "n2", "n3", "n4", "n5"}, DU={"u1", "u2"}, DH={"h1"}, DTS={1},
     IAS={"a1", "a2", "a3"}, IID={"d1", "d2"}, ITY={"ind"}, IC={"c1", "c2"}, ICn=2,
     MHS={"Created", "CanTransfer"}, MMS={"m1", "m2", "m3"},
+    CTP={"t1", "t2"}, CIP={"i1", "i2", "i3"}, CDP={"d1", "d2"}, CSch={101},
     BS=2,
 )
 # limits out of reach: the behaviours replayed on the real code (real limits) carry exact expectations
@@ -22,8 +24,8 @@ _far = dict(LimKpt=99, LimRpk=99, LimTopics=99, LimIssuers=99, LimTokens=99, Lim
 # scaled limits: at and one past every capacity limit within a handful of calls
 _near = dict(LimKpt=2, LimRpk=3, LimTopics=2, LimIssuers=2, LimTokens=4, LimBatch=2, LimDocs=3,
              LimCountries=2, LimModules=2)
-_dp = dict(DpKeys=4, DpCti=4, DpBinder=5, DpDocs=4, DpIrs=3, DpModules=5)
-_dp_thorough = dict(DpKeys=5, DpCti=5, DpBinder=6, DpDocs=6, DpIrs=4, DpModules=7)
+_dp = dict(DpKeys=4, DpCti=4, DpBinder=5, DpDocs=4, DpIrs=3, DpModules=5, DpClaims=5)
+_dp_thorough = dict(DpKeys=5, DpCti=5, DpBinder=6, DpDocs=6, DpIrs=4, DpModules=7, DpClaims=6)
 
 
 def _bug(name, fl, bug, **kw):
@@ -44,7 +46,7 @@ MODEL = dict(
              invariants=["NoViolation", "Refines"]),
         # scaled limits: the element at the limit is accepted, one past it refused, in every order
         dict(name="capacity", module="MC_Registries",
-             constants=dict(_u, **_near, **dict(_dp, DpBinder=4), Fls=FLS, BBn=3, IC={"c1"}, ICn=3, BUG="none",
+             constants=dict(_u, **_near, **dict(_dp, DpBinder=4), Fls=FLS - {"claims"}, BBn=3, IC={"c1"}, ICn=3, BUG="none",
                             EmitEvery=0),
              thorough=dict(_dp_thorough, DpBinder=5, IC={"c1", "c2"}),
              invariants=["NoViolation", "Refines"]),
@@ -56,11 +58,14 @@ MODEL = dict(
         _bug("nonvacuous_docs", "docs", "docs_stale_index"),
         _bug("nonvacuous_irs", "irs", "irs_rereg"),
         _bug("nonvacuous_modules", "modules", "modules_cap_gt", LimModules=2),
+        _bug("nonvacuous_claims_dup", "claims", "claims_dup_index"),
+        _bug("nonvacuous_claims_stale", "claims", "claims_stale_index"),
+        _bug("nonvacuous_claims_id", "claims", "claims_topic_blind"),
     ],
     # runs of >= 50 calls (thorough) include, in every eighth driver process, the fill to 10 000 tokens / 5 000 documents
     quick=dict(sample=2500, drive_runs=180, drive_len=40),
     thorough=dict(sample=30000, drive_runs=720, drive_len=60, harness_timeout=6000),
-    selftest_drive=(30, 30),   # two driver cycles: every kind of run occurs at run >= 3
+    selftest_drive=(34, 30),   # two driver cycles: every kind of run occurs at run >= 3
     need=[("allow", "ok"), ("allow", "fail"), ("remove", "ok"), ("remove", "fail"),
           ("add_topic", "ok"), ("add_topic", "fail"), ("remove_topic", "ok"), ("remove_topic", "fail"),
           ("add_issuer", "ok"), ("add_issuer", "fail"), ("remove_issuer", "ok"), ("remove_issuer", "fail"),
@@ -71,10 +76,11 @@ MODEL = dict(
           ("add_identity", "ok"), ("add_identity", "fail"), ("modify_identity", "ok"), ("remove_identity", "ok"),
           ("recover", "ok"), ("recover", "fail"), ("add_countries", "ok"), ("add_countries", "fail"),
           ("modify_country", "ok"), ("delete_country", "ok"), ("delete_country", "fail"),
-          ("add_module", "ok"), ("add_module", "fail"), ("remove_module", "ok"), ("remove_module", "fail")],
+          ("add_module", "ok"), ("add_module", "fail"), ("remove_module", "ok"), ("remove_module", "fail"),
+          ("add_claim", "ok"), ("add_invalid", "fail"), ("remove_claim", "ok"), ("remove_claim", "fail")],
     # the real limits are reached from both sides (total capacity of binder / docs: thorough tier only)
     need_cnt=[x + n for n in ("rpk", "kpt", "topics", "issuers", "batch", "countries", "modules") for x in ("over_", "at_")]
-             + ["C20_irs_recovery"],
+             + ["C20_irs_recovery", "C20_claims_query", "C20_claims_enum", "C20_claims_refuse", "C20_claims_ids"],
 )
 
 
@@ -82,7 +88,7 @@ MODEL = dict(
 def _fl(ev):
     o = ev["obs"]
     for k, f in (("kft", "keys"), ("ti", "cti"), ("tokens", "binder"), ("byname", "docs"), ("ident", "irs"),
-                 ("mods", "modules")):
+                 ("mods", "modules"), ("byt", "claims")):
         if k in o:
             return f
     return "?"
@@ -277,6 +283,78 @@ def _modules_reg_extra(ev):
     return None
 
 
+def _claims_stale_id(ev):
+    # the id of a claim that does not exist is listed under its topic
+    if _fl(ev) == "claims":
+        for p in ev["obs"]["claim"]:
+            if not p["ok"] and p["id"] not in ev["obs"]["byt"][p["t"]]:
+                ev["obs"]["byt"][p["t"]].append(p["id"])
+                return ev
+    return None
+
+
+def _claims_dup_id(ev):
+    if _fl(ev) == "claims":
+        for t, l in ev["obs"]["byt"].items():
+            if l:
+                l.append(l[0])
+                return ev
+    return None
+
+
+def _claims_lost_id(ev):
+    if _fl(ev) == "claims":
+        for t, l in ev["obs"]["byt"].items():
+            if len(l) >= 2:
+                l.pop(1)
+                return ev
+    return None
+
+
+def _claims_data(ev):
+    if _fl(ev) == "claims":
+        for p in ev["obs"]["claim"]:
+            if p["ok"]:
+                p["data"] = "d9"
+                return ev
+    return None
+
+
+def _claims_wrong_topic(ev):
+    # get_claim(id of (t, i)) answers with a claim of another topic
+    if _fl(ev) == "claims":
+        for p in ev["obs"]["claim"]:
+            if p["ok"]:
+                p["topic"] = "t2" if p["topic"] == "t1" else "t1"
+                return ev
+    return None
+
+
+def _claims_id_collision(ev):
+    if _fl(ev) == "claims" and len(ev["obs"]["claim"]) >= 2:
+        ev["obs"]["claim"][1]["id"] = ev["obs"]["claim"][0]["id"]
+        return ev
+    return None
+
+
+def _claims_ret(ev):
+    # an overwrite returns another id than the claim's
+    if _fl(ev) == "claims" and ev["op"]["op"] == "add_claim" and ev["res"] == "ok":
+        ev["ret"] = "t9/i9"
+        return ev
+    return None
+
+
+def _claims_refused_with_effect(ev):
+    # a refused call after which a topic lists its ids in another order
+    if ev["res"] == "fail" and _fl(ev) == "claims":
+        for t, l in ev["obs"]["byt"].items():
+            if l != l[::-1]:
+                l.reverse()
+                return ev
+    return None
+
+
 def _refused_with_effect(ev):
     # a refused call whose observation differs from the one before (only the order of a list changes,
     # so that every set-level answer stays right)
@@ -298,6 +376,8 @@ MODEL["selftest"] = [
     _irs_link_lost, _irs_reregistered, _irs_past_end, _irs_country_order, _flip("recover", "fail", "ok"),
     _modules_drop, _modules_reg_extra, _flip("add_module", "fail", "ok"), _flip("remove_module", "fail", "ok"),
     _refused_with_effect,
+    _claims_stale_id, _claims_dup_id, _claims_lost_id, _claims_data, _claims_wrong_topic, _claims_id_collision, _claims_ret,
+    _claims_refused_with_effect, _flip("remove_claim", "fail", "ok"), _flip("add_invalid", "fail", "ok"),
 ]
 
 SERVES = {
@@ -307,5 +387,7 @@ SERVES = {
         "capacity limits are the library's public constants (15 topics, 50 issuers, 50 keys per topic, 20 registries "
         "per key, 20 modules, 15 country entries, batches of 200 over buckets of 100, document buckets of 50) and are "
         "reached from both sides by the random driver; the totals of 10 000 tokens / 5 000 documents only in the thorough tier",
+        "identity claims: the issuers asked by add_claim are scripted contracts whose is_claim_valid traps iff a flag is "
+        "set (the validity of a claim is C15's subject); claim ids are compared over the probed universe of topics x issuers",
     ]),
 }
